@@ -488,8 +488,15 @@ class ProfileFeatureCounter(AbstractCounter):
     @staticmethod
     def feature_key(feature_info):
         # a row is identified by the annotated feature itself; FeatureInfo.id is a running number that is
-        # assigned anew every time the gene is loaded (once per read cluster), so it cannot identify a row
-        return feature_info.chr_id, feature_info.start, feature_info.end, feature_info.strand
+        # assigned anew every time the gene is loaded (once per read cluster), so it cannot identify a row;
+        # neither can the strand string, flags and gene list: they depend on which genes were loaded together
+        return feature_info.chr_id, feature_info.start, feature_info.end
+
+    def add_feature_info(self, feature_id, feature_info):
+        if feature_id not in self.feature_name_dict:
+            self.feature_name_dict[feature_id] = feature_info
+        else:
+            self.feature_name_dict[feature_id] = self.feature_name_dict[feature_id].merge(feature_info)
 
     def add_read_info_from_profile(self, gene_feature_profile, feature_property_map,
                                    read_group = AbstractReadGrouper.default_group_id):
@@ -502,13 +509,11 @@ class ProfileFeatureCounter(AbstractCounter):
             if gene_feature_profile[i] == 1:
                 feature_id = self.feature_key(feature_property_map[i])
                 self.inclusion_feature_counter[feature_id].inc(group_id)
-                if feature_id not in self.feature_name_dict:
-                    self.feature_name_dict[feature_id] = feature_property_map[i].to_str()
+                self.add_feature_info(feature_id, feature_property_map[i])
             elif gene_feature_profile[i] == -1:
                 feature_id = self.feature_key(feature_property_map[i])
                 self.exclusion_feature_counter[feature_id].inc(group_id)
-                if feature_id not in self.feature_name_dict:
-                    self.feature_name_dict[feature_id] = feature_property_map[i].to_str()
+                self.add_feature_info(feature_id, feature_property_map[i])
 
     def dump(self):
         with open(self.output_counts_file_name, "w") as f:
@@ -517,7 +522,7 @@ class ProfileFeatureCounter(AbstractCounter):
             all_groups = sorted(self.group_numeric_ids.keys())
             for feature_id in self.feature_name_dict.keys():
                 for group_name in all_groups:
-                    feature_name = self.feature_name_dict[feature_id]
+                    feature_name = self.feature_name_dict[feature_id].to_str()
                     group_id = self.group_numeric_ids[group_name]
                     incl_count = self.inclusion_feature_counter[feature_id].get(group_id)
                     excl_count = self.exclusion_feature_counter[feature_id].get(group_id)
